@@ -383,6 +383,33 @@ pub fn expected_client_info(c: &ConnCfg) -> (String, String, String) {
 }
 
 /// C17: secrets leave only where the mode allows
+/// the server selected a protocol that was not offered: the client must refuse, and by then no CredSSP message, no
+/// Client Info and no password may have left it
+pub fn check_c17_unoffered(t: &Transcript) -> Option<Finding> {
+    if t.connect_ok {
+        return Some(f("unoffered-selection-accepted", format!("connect succeeded although the server selected {:#x}", t.params.selected)));
+    }
+    for m in &t.log {
+        if m.name.starts_with("cssp_") {
+            return Some(f("credssp-started-for-an-unoffered-selection", format!("{} was sent although the selected protocol {:#x} was not offered (use_nla={})", m.name, t.params.selected, t.cfg.use_nla)));
+        }
+        if m.name == "client_info" {
+            return Some(f("client-info-sent-for-an-unoffered-selection", format!("selected {:#x}", t.params.selected)));
+        }
+    }
+    if t.creds.is_some() {
+        return Some(f("credssp-started-for-an-unoffered-selection", "credentials were delivered".to_string()));
+    }
+    if !t.cfg.client.password.is_empty() {
+        for n in [t.cfg.client.password.as_bytes().to_vec(), utf16le(&t.cfg.client.password)] {
+            if find(&t.raw_before_tls, &n).is_some() || find(&t.raw_after_cc, &n).is_some() {
+                return Some(f("password-on-raw-transport", "password visible on the raw transport".to_string()));
+            }
+        }
+    }
+    None
+}
+
 pub fn check_c17(t: &Transcript) -> Option<Finding> {
     if !t.connect_ok {
         return Some(f("conforming-server-refused", format!("{} {:?}", t.connect_error, t.server_errors)));
